@@ -26,19 +26,27 @@ import (
 // C10 — malformed streams yield an error, never a crash (DESIGN §5 C10).
 
 type c10Spec struct {
-	Seed   uint64 `json:"seed"`
-	Stream string `json:"stream"` // patch | optpatch | sig | overlay
-	Mode   string `json:"mode"`   // trunc | field
-	Comp   string `json:"comp"`   // none | gzip | brotli
-	From   int    `json:"from"`
-	To     int    `json:"to"`
-	Only   int    `json:"only"` // replay: run a single mutant index (-1 = all in [From,To))
+	Seed    uint64 `json:"seed"`
+	Stream  string `json:"stream"` // patch | optpatch | sig | overlay
+	Mode    string `json:"mode"`   // trunc | field
+	Comp    string `json:"comp"`   // none | gzip | brotli
+	From    int    `json:"from"`
+	To      int    `json:"to"`
+	Only    int    `json:"only"`    // replay: run a single mutant index (-1 = all in [From,To))
+	Variant int    `json:"variant"` // size class of the multi-op old file (0: unaligned, 1: 3 blocks exactly, 2: 2.5 blocks)
 }
 
-func c10Pair(seed uint64) *lib.Pair {
+func c10Pair(seed uint64, variant int) *lib.Pair {
 	r := lib.NewRng(lib.Mix(seed, 1010))
 	p := &lib.Pair{Old: lib.NewBuild(), New: lib.NewBuild(), Feat: map[string]bool{}}
-	a := lib.RandomBytes(3*lib.BS+int64(r.Range(1, 500)), r.Uint64())
+	asize := 3*lib.BS + int64(r.Range(1, 500))
+	switch variant % 3 {
+	case 1:
+		asize = 3 * lib.BS // an exact multiple of the block size and of lrufile's 32 KiB chunk
+	case 2:
+		asize = 2*lib.BS + 32*lib.KB
+	}
+	a := lib.RandomBytes(asize, r.Uint64())
 	na := append([]byte(nil), a...)
 	lib.FillRandom(na[lib.BS+10:lib.BS+60], r.Uint64())
 	p.Old.PutFile("a.bin", a)
@@ -103,7 +111,10 @@ func patchMutants(ps *lib.PatchStream) []mutant {
 				if t == int32(m.Type) {
 					continue
 				}
-				add(fmt.Sprintf("msg%d SyncHeader.Type=%d", i, t), func(ms []proto.Message) []proto.Message { ms[i].(*pwr.SyncHeader).Type = pwr.SyncHeader_Type(t); return ms })
+				add(fmt.Sprintf("msg%d SyncHeader.Type=%d", i, t), func(ms []proto.Message) []proto.Message {
+					ms[i].(*pwr.SyncHeader).Type = pwr.SyncHeader_Type(t)
+					return ms
+				})
 			}
 		case *pwr.SyncOp:
 			for _, t := range []int32{0, 1, 2049, 77, -5} {
@@ -148,6 +159,14 @@ func patchMutants(ps *lib.PatchStream) []mutant {
 				v := v
 				add(fmt.Sprintf("msg%d Control.Seek=%d", i, v), func(ms []proto.Message) []proto.Message { ms[i].(*bsdiff.Control).Seek = v; return ms })
 			}
+			if tgt, ok := bsTargetSize(ps, i); ok {
+				// seeks that put the NEXT control's old offset exactly at {0, size-1, size, size+1, next 32K boundary +-1}
+				cur := bsOffsetAfterAdd(base, i)
+				for _, want := range []int64{0, tgt - 1, tgt, tgt + 1, (tgt/32768+1)*32768 - 1, (tgt/32768 + 1) * 32768} {
+					v := want - cur
+					add(fmt.Sprintf("msg%d Control.Seek lands old offset on %d (size %d)", i, want, tgt), func(ms []proto.Message) []proto.Message { ms[i].(*bsdiff.Control).Seek = v; return ms })
+				}
+			}
 			add(fmt.Sprintf("msg%d Control.Add past old end", i), func(ms []proto.Message) []proto.Message {
 				ms[i].(*bsdiff.Control).Add = make([]byte, oldSize+10)
 				return ms
@@ -184,6 +203,43 @@ func patchMutants(ps *lib.PatchStream) []mutant {
 	return out
 }
 
+// bsTargetSize returns the size of the old file the bsdiff series containing flat message i applies to.
+func bsTargetSize(ps *lib.PatchStream, i int) (int64, bool) {
+	flat := ps.Flat()
+	for k := i; k >= 0; k-- {
+		if h, ok := flat[k].(*pwr.BsdiffHeader); ok {
+			if h.TargetIndex >= 0 && h.TargetIndex < int64(len(ps.Old.Files)) {
+				return ps.Old.Files[h.TargetIndex].Size, true
+			}
+			return 0, false
+		}
+		if _, ok := flat[k].(*pwr.SyncHeader); ok {
+			return 0, false
+		}
+	}
+	return 0, false
+}
+
+// bsOffsetAfterAdd simulates the old offset right after the add of control i (before its seek is applied).
+func bsOffsetAfterAdd(flat []proto.Message, i int) int64 {
+	var off int64
+	start := i
+	for start > 0 {
+		if _, ok := flat[start-1].(*bsdiff.Control); !ok {
+			break
+		}
+		start--
+	}
+	for k := start; k <= i; k++ {
+		c := flat[k].(*bsdiff.Control)
+		off += int64(len(c.Add))
+		if k < i {
+			off += c.Seek
+		}
+	}
+	return off
+}
+
 type c10Seeds struct {
 	pair           *lib.Pair
 	oldDir, newDir string
@@ -192,8 +248,8 @@ type c10Seeds struct {
 	overlays       [][2][]byte // overlay bytes, old content
 }
 
-func c10MakeSeeds(seed uint64, scratch string) (*c10Seeds, error) {
-	s := &c10Seeds{pair: c10Pair(seed), oldDir: filepath.Join(scratch, "old"), newDir: filepath.Join(scratch, "new")}
+func c10MakeSeeds(seed uint64, variant int, scratch string) (*c10Seeds, error) {
+	s := &c10Seeds{pair: c10Pair(seed, variant), oldDir: filepath.Join(scratch, "old"), newDir: filepath.Join(scratch, "new")}
 	s.pair.Old.Materialize(s.oldDir)
 	s.pair.New.Materialize(s.newDir)
 	dr, err := lib.DiffDirs(s.oldDir, s.newDir, lib.Comp{Algo: "none"}, nil, nil, nil)
@@ -228,7 +284,7 @@ func c10MakeSeeds(seed uint64, scratch string) (*c10Seeds, error) {
 
 func c10Cases(tier string, seed uint64, flavor string) []lib.Case {
 	var cases []lib.Case
-	nseeds := 2
+	nseeds := 3
 	if tier == "thorough" {
 		nseeds = 12
 	}
@@ -243,7 +299,7 @@ func c10Cases(tier string, seed uint64, flavor string) []lib.Case {
 				chunks := 8
 				for ch := 0; ch < chunks; ch++ {
 					for _, mode := range []string{"trunc", "field"} {
-						cases = append(cases, lib.Case{Seed: sd, Kind: st + "/" + mode + "/" + comp, Spec: lib.MustSpec(c10Spec{Seed: sd, Stream: st, Mode: mode, Comp: comp, From: ch, To: chunks, Only: -1})})
+						cases = append(cases, lib.Case{Seed: sd, Kind: st + "/" + mode + "/" + comp, Spec: lib.MustSpec(c10Spec{Seed: sd, Stream: st, Mode: mode, Comp: comp, From: ch, To: chunks, Only: -1, Variant: si})})
 					}
 				}
 			}
@@ -279,7 +335,7 @@ func (cr *c10Runner) call(entry, desc string, f func() error) {
 	var err error
 	var panicked bool
 	var stack string
-	v := lib.RunWithQuiescence(func() { err, panicked, stack = lib.Guard(f) }, 30*time.Second)
+	v := lib.RunWithQuiescence(func() { err, panicked, stack = lib.Guard(f) }, 12*time.Second)
 	cr.res.Add("entry_calls", 1)
 	cr.res.Add("calls:"+entry, 1)
 	if !v.Returned {
@@ -407,7 +463,7 @@ func c10Run(c lib.Case, env *lib.Env) lib.Result {
 	var s c10Spec
 	lib.ReadSpec(c, &s)
 	res := lib.Result{NonTrivial: true}
-	seeds, err := c10MakeSeeds(s.Seed, env.Scratch)
+	seeds, err := c10MakeSeeds(s.Seed, s.Variant, env.Scratch)
 	if err != nil {
 		res.Inconclusive("seed streams: " + err.Error())
 		return res
@@ -655,14 +711,14 @@ var _ = context.Background
 
 func init() {
 	lib.Register(&lib.Property{
-		ID:    "C10",
-		Level: "fault_enumeration",
-		Rule: "seed streams: valid plain and optimized (ForceMapAll) patches of a small pair (multi-op file, whole-file op, empty file, fresh file, dir, symlink), its signature, three overlays; each re-framed uncompressed, GZIP and BROTLI by the independent encoder (every message carries its true length; the two containers are never mutated). (a) truncation at EVERY byte of uncompressed streams <= 8 KiB (every 97th byte plus the first/last 600 above; first/last 512 + every 211th byte of compressed ones); (b) field mutation: every index/span/length/seek field of every message set to {-1,0,1,L-1,L,L+1,2^31-1,2^31,2^32,2^62} (and -L-1, -2^62 for seeks), op/series kinds set to every other legal and to unknown values, end markers dropped / duplicated / inserted early, sync headers swapped, add longer than the old file, copy empty, Eof flipped / dropped, series appended, signatures with n-1 / n+1 / 0 / 1 / k / 2n hashes and damaged hash fields, overlay SKIP negative/huge, FRESH empty, ops dropped / duplicated. Every mutant goes to patcher.New/Resume with fresh and dry bowl, rediff.NewContext/Optimize, ReadSignature+ComputeHashInfo+validating pool+AssertValid, OverlayPatchContext.Patch; oracle: the call returns (recover in the caller, child-exit attribution for panics in other goroutines, quiescence detector for hangs). distinct = distinct (stream, mode, framing, chunk, seed)",
+		ID:          "C10",
+		Level:       "fault_enumeration",
+		Rule:        "seed streams: valid plain and optimized (ForceMapAll) patches of a small pair (multi-op file, whole-file op, empty file, fresh file, dir, symlink), its signature, three overlays; each re-framed uncompressed, GZIP and BROTLI by the independent encoder (every message carries its true length; the two containers are never mutated). (a) truncation at EVERY byte of uncompressed streams <= 8 KiB (every 97th byte plus the first/last 600 above; first/last 512 + every 211th byte of compressed ones); (b) field mutation: every index/span/length/seek field of every message set to {-1,0,1,L-1,L,L+1,2^31-1,2^31,2^32,2^62} (and -L-1, -2^62 for seeks), op/series kinds set to every other legal and to unknown values, end markers dropped / duplicated / inserted early, sync headers swapped, add longer than the old file, copy empty, Eof flipped / dropped, series appended, signatures with n-1 / n+1 / 0 / 1 / k / 2n hashes and damaged hash fields, overlay SKIP negative/huge, FRESH empty, ops dropped / duplicated. Every mutant goes to patcher.New/Resume with fresh and dry bowl, rediff.NewContext/Optimize, ReadSignature+ComputeHashInfo+validating pool+AssertValid, OverlayPatchContext.Patch; oracle: the call returns (recover in the caller, child-exit attribution for panics in other goroutines, quiescence detector for hangs). distinct = distinct (stream, mode, framing, chunk, seed)",
 		Assumptions: []string{"output content is not judged", "a panic with 'out of memory' / 'makeslice: len out of range' would be classed out-of-domain (huge allocation); none is expected because all declared lengths are true"},
-		Cases:      c10Cases,
-		Run:        c10Run,
-		Batch:      2,
-		CaseBudget: 900 * 1e9,
+		Cases:       c10Cases,
+		Run:         c10Run,
+		Batch:       2,
+		CaseBudget:  900 * 1e9,
 		Exhaustive: func(tier string) (bool, string) {
 			return false, "truncation points of uncompressed seed streams <= 8 KiB are enumerated completely; everything else is a fixed list"
 		},
